@@ -113,6 +113,10 @@ def main():
             except SystemExit:
                 bad += 1
         sys.exit(1 if bad else 0)
+    if args[0] == "--build-only":
+        reg = registry()
+        build(args[1], reg[args[1]])
+        sys.exit(0)
     cid = args[0]
     tier = "quick"
     rest = []
